@@ -1,6 +1,7 @@
 package main
 
 import (
+	"strconv"
 	"math/rand"
 	"os"
 	"path/filepath"
@@ -169,6 +170,21 @@ func genTwinBook(r *rand.Rand, allowKnown bool) twinBook {
 		gs.spec.Rows = rows
 		gs.spec.Meta = meta
 		b.Sheets = append(b.Sheets, gs.spec)
+	}
+	if r.Intn(4) == 0 {
+		// a refer between two sheets: the referred column is the last one and has blank cells (XLSX rows end before
+		// them), the referring column has a blank cell too and, with FieldPresence, that blank is a present value
+		ref := [][]string{{"ID", "Tag"}, {"map<uint32, RefItem>", "string"}, {"id", "tag"}}
+		use := [][]string{{"ID", "RefTag"}, {"map<uint32, UseItem>", `string|{refer:"RefConf.Tag"}`}, {"id", "ref tag"}}
+		for i := 1; i <= 2+r.Intn(4); i++ {
+			tag := "t" + strconv.Itoa(i)
+			if r.Intn(3) == 0 {
+				tag = ""
+			}
+			ref = append(ref, []string{strconv.Itoa(i), tag})
+			use = append(use, []string{strconv.Itoa(i), tag})
+		}
+		b.Sheets = append(b.Sheets, sheetSpec{Name: "RefConf", Rows: ref}, sheetSpec{Name: "UseConf", Rows: use, Meta: map[string]string{"FieldPresence": "true"}})
 	}
 	tb.book = b
 	return tb
